@@ -168,7 +168,7 @@ CHECKS["C19"] = dict(
     design="§4 C19", note=NOTE_NTT)
 
 CHECKS["C18"] = dict(
-    text=("PARTIAL BY NATURE, but with theorems about the model REGENERATED from the source. Machine-checked (Props/C18.lean, 19 theorems): "
+    text=("PARTIAL BY NATURE, but with theorems about the model REGENERATED from the source. Machine-checked (Props/C18.lean, 28 theorems): "
           "(A) on the generated HEAP model of ntt_goldilocks.cpp/.hpp (Gen/NttGen.lean, translated on every run; pointers = block/offset, "
           "malloc/new[]/VLA = Heap.alloc, free/delete[]/scope end = Heap.free): ALLOCATION BALANCE — NTT, INTT, NTT_iters, reversePermutation "
           "return a heap with exactly the same live blocks and extents for every argument value, nblock, buffer or not; the constructor "
@@ -177,10 +177,7 @@ CHECKS["C18"] = dict(
           "start (C18_generated_alloc_balance). IN-BOUNDS ACCESSES — a command derives from each generated definition the predicate 'every "
           "Heap.get/set is inside its block, every memcpy has both ranges inside their blocks and disjoint, every memset range is inside, every "
           "free is NULL or the start of a live block', along all paths, loop iterations and callees (a construct without a rule is an error, so "
-          "no access is dropped); proved for reversePermutation (4 branches), the butterfly batch, NTT_iters (2 <= n <= 2^30, any nphase), NTT "
-          "and INTT for EVERY nblock with or without caller buffer under the documented buffer sizes (dst, buffer: size*ncols words), the "
-          "destructor, and constructor+NTT with no hypothesis on the object; NOT discharged: the constructor's table loops, computeR, extendPol, "
-          "size 1; (B) hand model of the malloc/free/new[]/delete[] TRACE (Model/NttAlloc.lean): clean for every call history, incl. the "
+          "no access is dropped); proved for reversePermutation (4 branches), the butterfly batch, NTT_iters (1 <= n <= 2^30, any nphase), NTT and INTT for EVERY nblock with or without caller buffer under the documented buffer sizes (dst, buffer: size*ncols words), parcpy, the CONSTRUCTOR with no hypothesis at all (1 <= s <= 32 is proved as an invariant of the translated loop), computeR (object built for at least N points), extendPol (every nblock, all three cache states, buffer or not, in place or not; object built for at least N points, cache invariant re-established), the destructor, and every HISTORY constructor -> calls -> destructor whose calls have the documented shapes (C18_generated_inbounds_history); the one hypothesis beyond the arguments (log2 N <= s) was run on the real code: violating it overflows powTwoInv (caller error, the constructor argument is the documented maximum); NOT discharged: log2 n > 30, direct NTT/INTT with extend=true inside a history, buffers that are ranges of one block; (B) hand model of the malloc/free/new[]/delete[] TRACE (Model/NttAlloc.lean): clean for every call history, incl. the "
           "deallocator family (the pinned tree's delete-vs-delete[] D10 is a non-clean trace), tied to the code by recording the library's REAL "
           "allocator calls (wrapped malloc/free, replaced operator new[]/delete[]/delete) and comparing word for word; (C) scratch extents of "
           "NTT() and frame conditions re-exported from C17/C08. NOT proved, only observed, for the rest of the library: absence of "
@@ -222,9 +219,11 @@ CHECKS["C17"] = dict(
           "through the kernel theorems of C01/C02/C11, set/load/store; (3) parcpy/parSetZero transfer exactly size elements for "
           "every size, every int thread count (<= 0 included) and every execution order of the chunks (hand model "
           "Model/ParCopy.lean). Tie: bodies regenerated from the source; correspondence of every overload (implementation vs "
-          "generated model vs signature-derived oracle) with exact-extent arrays against PROT_NONE guard pages."),
+          "generated model vs signature-derived oracle) with exact-extent arrays against PROT_NONE guard pages, including call "
+          "patterns in which the broadcast scalar is an element of the result array itself (f(out, out[j], ...): the designated "
+          "scalar is the value at the call)."),
     technique="Lean 4 proof, statements generated from C++ signatures and bodies translated from the source (clang AST) + CPU correspondence",
-    design="§4 C17", note=NOTE_BASE + " Distinct pointer arguments are modelled as disjoint regions (argument aliasing not covered); parcpy is a hand model.")
+    design="§4 C17", note=NOTE_BASE + " Distinct pointer arguments are modelled as disjoint regions (aliasing of pointer arguments not covered; a scalar taken from the result array is exercised, not proved); parcpy is also translated and bridged (C17_generated_parcpy).")
 CHECKS["C08"] = dict(
     text=("Machine-checked theorems (Props/C08.lean) about the Merkle model (leaf digests, then level by level the hashes of adjacent "
           "digest pairs), generic in leaf and node hash: for every power-of-two row count incl. one the buffer size equals the "
